@@ -466,6 +466,28 @@ func c14(r *hx.Run) {
 					mustAccept("compressed-size", id, pp, fs.trees, nil)
 				}
 			}
+			// the same compressed-size boundary when the file is only available from an alternate source
+			for _, dv := range []int{-1, 0} {
+				pp := p
+				pp.MaxMemoryDecompressionFactor = 50
+				sizeParam[f](&pp, uint(L+dv))
+				caseID := fmt.Sprintf("%s|compressed-size-alt-source:%s:limit=%+d", fs.name, f, dv)
+				if !r.Want(caseID) {
+					continue
+				}
+				c, a := fs.assemble(fs.trees, nil, fs.count)
+				target := fx.Addr(content)
+				c.FailR = func(n int, addr string) bool { return addr == target }
+				c.Aliases["alt:"+target] = content
+				res := c14Read(r, caseID, pp, c, a, []string{"alt"}, txnprovider.WithSourceCASURIFormatter(func(uri, source string) (string, error) { return source + ":" + uri, nil }))
+				r.Nontrivial(caseID)
+				if dv < 0 && res.err == nil {
+					r.Violation("accepts:oversize-file-from-alternate-source", caseID, fmt.Sprintf("%s: %s file of %d bytes served by an alternate source accepted with limit %d", fs.name, f, L, L+dv), nil)
+				}
+				if dv == 0 && res.err != nil {
+					r.Violation("rejects-at-limit:alternate-source", caseID, fmt.Sprintf("%s: %s from alternate source rejected at its limit: %v", fs.name, f, res.err), nil)
+				}
+			}
 			// decompressed boundary: pad the JSON with trailing spaces to exactly P*F and P*F+1 bytes
 			for _, F := range []uint{2, 3} {
 				P := uint(L + 60)
